@@ -45,6 +45,8 @@ static int arm_kind = 0;      /* 0 fail once, 1 short write then fail continuati
 static int64_t arm_seen = 0;
 static int arm_fired = 0;
 static int cont_fail = 0;     /* the continuation of a short write must fail */
+static int64_t short_len = 0; /* bytes a short write really writes (0 = half of the buffer) */
+static int64_t below = 0;     /* class 3 = writes at a file offset below this (the two header pages) */
 
 static ssize_t (*real_write)(int, const void *, size_t);
 static ssize_t (*real_pwrite64)(int, const void *, size_t, off64_t);
@@ -139,8 +141,22 @@ void vio_arm(int cls, int64_t nth, int err, int kind) {
     pthread_mutex_unlock(&mu);
 }
 
+void vio_below(int64_t n) {
+    pthread_mutex_lock(&mu);
+    below = n;
+    pthread_mutex_unlock(&mu);
+}
+
+void vio_short_len(int64_t n) {
+    pthread_mutex_lock(&mu);
+    short_len = n;
+    pthread_mutex_unlock(&mu);
+}
+
 void vio_reset(void) {
     pthread_mutex_lock(&mu);
+    short_len = 0;
+    below = 0;
     n_write = n_fsync = n_open = n_mmap = n_trunc = 0;
     arm_class = 0; arm_nth = -1; arm_seen = 0; arm_fired = 0; cont_fail = 0;
     pthread_mutex_unlock(&mu);
@@ -153,6 +169,20 @@ void vio_stats(uint64_t *out) { /* out[6]: writes, fsyncs, opens, mmaps, truncs,
 }
 
 int vio_present(void) { return 1; }
+
+static int fault_decide(int cls);
+/* write at file offset `off`: class 1 counts every write, class 3 only header-page writes */
+static int fault_decide_w(int64_t off) {
+    if (cont_fail) { cont_fail = 0; arm_fired++; return 1; }
+    if (arm_class == 3) {
+        if (!(below > 0 && off >= 0 && off < below)) return 0;
+        int64_t i = arm_seen++;
+        if (i != arm_nth) return 0;
+        arm_fired++;
+        return arm_kind == 1 ? 2 : 1;
+    }
+    return fault_decide(1);
+}
 
 /* returns 0 = proceed normally, 1 = fail with errno, 2 = short write */
 static int fault_decide(int cls) {
@@ -277,12 +307,13 @@ ssize_t write(int fd, const void *buf, size_t count) {
     pthread_mutex_lock(&mu);
     n_write++;
     int64_t off = (int64_t)lseek64(fd, 0, SEEK_CUR);
-    int d = fault_decide(1);
+    int d = fault_decide_w(off);
     ssize_t ret;
     int err = 0;
     if (d == 1) { ret = -1; err = arm_errno; }
     else if (d == 2) {
-        size_t half = count / 2;
+        size_t half = short_len > 0 ? (size_t)short_len : count / 2;
+        if (half >= count) half = count - 1;
         if (half == 0) { ret = -1; err = arm_errno; }
         else { ret = real_write(fd, buf, half); cont_fail = 1; }
     } else ret = real_write(fd, buf, count);
@@ -300,12 +331,13 @@ ssize_t pwrite64(int fd, const void *buf, size_t count, off64_t off) {
     gate(1);
     pthread_mutex_lock(&mu);
     n_write++;
-    int d = fault_decide(1);
+    int d = fault_decide_w((int64_t)off);
     ssize_t ret;
     int err = 0;
     if (d == 1) { ret = -1; err = arm_errno; }
     else if (d == 2) {
-        size_t half = count / 2;
+        size_t half = short_len > 0 ? (size_t)short_len : count / 2;
+        if (half >= count) half = count - 1;
         if (half == 0) { ret = -1; err = arm_errno; }
         else { ret = real_pwrite64(fd, buf, half, off); cont_fail = 1; }
     } else ret = real_pwrite64(fd, buf, count, off);
